@@ -89,11 +89,14 @@ func (d *downloaderPP) Download(ctx context.Context, fromBlock uint64, downloade
 		default:
 		}
 
-		// Wait for new blocks before processing
-		fromBlock = d.WaitForNewBlocks(ctx, fromBlock)
-		for _, block := range d.GetEventsByBlockRange(ctx, fromBlock, fromBlock) {
+		// Wait for new blocks before processing. fromBlock is the first block not fetched yet, so the last
+		// block seen is fromBlock-1. The tip can advance by more than one block between two polls: fetch the
+		// whole range up to the new tip, not only the tip itself.
+		lastBlock := d.WaitForNewBlocks(ctx, fromBlock-1)
+		for _, block := range d.GetEventsByBlockRange(ctx, fromBlock, lastBlock) {
 			downloadedCh <- *block
 		}
+		fromBlock = lastBlock + 1
 	}
 }
 
